@@ -9,7 +9,7 @@ ID=${1:?usage: run.sh <ID> <quick|thorough> | replay <path>}
 TIER=${2:-quick}
 mkdir -p bin tmp evidence replay
 cmp -s /repo/go.sum harness/go.sum || cp /repo/go.sum harness/go.sum
-tag=$ID-$TIER-$$
+if [ "$ID" = replay ]; then tag=replay-$$; else tag=$ID-$TIER-$$; fi
 RACE=""
 if [ "$ID" = C20 ] || { [ "$ID" = replay ] && grep -q '"property": "C20"' "$TIER" 2>/dev/null; }; then RACE="-race"; fi
 # the monitor binary (links the library with the verif hooks on) and the CLI, both from /repo as it is now
